@@ -172,7 +172,7 @@ pub broadcast axiom fn axiom_terminal_key_model()
     ensures #[trigger] vstd::std_specs::hash::obeys_key_model::<TerminalID>();
 ''', label='TerminalID as a hash key (derived Hash/Eq, rule E4)'),
     RawFile('glue_spec.rs'),
-] + [RawFile(os.path.join(HERE, '..', 'u_lang', f), f) for f in ['lang_path.rs', 'lang_embed.rs', 'lang_constr.rs', 'lang_regex.rs', 'lang_thm.rs', 'lang_cls.rs']] + [
+] + [RawFile(os.path.join(HERE, '..', 'u_lang', f), f) for f in ['lang_path.rs', 'lang_embed.rs', 'lang_constr.rs', 'lang_regex.rs', 'lang_thm.rs', 'lang_cls.rs', 'lang_fresh.rs']] + [
     RawFile('glue_lang.rs'),
     pat_lookahead, try_from_lookahead, add_lookahead, dfa_try_from_patterns,
 ]
